@@ -5,7 +5,7 @@ import itertools
 from hypothesis import strategies as st
 from hypothesis.stateful import RuleBasedStateMachine, rule, invariant, precondition, initialize
 
-from ..runner import Violation, unexpected, digest
+from ..runner import Violation, unexpected, digest, guarded
 from ..ref import wire as W, hashes as H, sighash as RS
 from .. import libx, gen
 
@@ -401,8 +401,8 @@ def machine_factory(ctx):
                 return            # a swallowed (known / already reported / over-budget) failure: the world is out of step, stop here
             self.ops.append(op)
             try:
-                self.world.apply(op)
-                self.world.check()
+                guarded(self.world.apply, op)
+                guarded(lambda _: self.world.check(), None)
             except Violation as v:
                 v.case = {'ops': list(self.ops)}
                 if ctx.should_raise(v, v.case):
